@@ -1054,6 +1054,10 @@ def _val_to_numpy(
     # pyarrow refuses to copy by default, which nulls and bit-packed booleans require
     if is_chunked:
         val_list = [chunk.to_numpy(zero_copy_only=False) for chunk in arrow.chunks]
+        if len({chunk.dtype for chunk in val_list}) > 1:
+            # e.g. integer chunks with and without nulls come back as float64 and int64
+            common_type = np.result_type(*val_list)
+            val_list = [chunk.astype(common_type) for chunk in val_list]
     elif isinstance(val, pa.Array):
         val_list = [val.to_numpy(zero_copy_only=False)]
     elif hasattr(val, "to_numpy"):
